@@ -14,6 +14,10 @@ for d in seeded/*/; do
   ./run.sh "$prop" "$TIER" > /tmp/rerun-seed.log 2>&1; rc=$?
   git -C /repo checkout -- .
   v=$(grep -m1 '^violation:' /tmp/rerun-seed.log | cut -c1-150)
+  if [ $rc -eq 1 ] && [ -n "${KEEP_REPLAYS:-}" ]; then
+    rp=$(grep -m1 '^VIOLATION' /tmp/rerun-seed.log | sed 's/.*replay=//')
+    [ -f "$rp" ] && mkdir -p "regress/$prop" && cp "$rp" "regress/$prop/seed-$name.json"
+  fi
   if [ $rc -eq 1 ]; then echo "CAUGHT  $name ($prop) :: $v"; else echo "MISSED  $name ($prop) exit=$rc :: $(tail -1 /tmp/rerun-seed.log | cut -c1-150)"; missed=$((missed+1)); fi
 done
 git checkout -- evidence 2>/dev/null
